@@ -305,7 +305,24 @@ def r6_captured_text_outlives_the_frame(ctx):
     r5_promotion_complete(ctx)
 
 
-RULES = [("C16-R1", r1_recheck_after_join), ("C16-R2", r2_bounded_reader), ("C16-R3", r3_kill), ("C16-R4", r4_utf8_and_status), ("C16-R5", r6_captured_text_outlives_the_frame)]
+def r6_streams_get_the_policy_they_were_given(ctx):
+    """`Streams that are not captured read as null` and do not get in the way: a stream configured as null must really be
+    /dev/null - handed a pipe that nobody reads, the child blocks once it has written a pipe buffer (64 KiB) and the run ends
+    in a spurious timeout instead of the complete captured stream.  Shared with C15-R9 (name -> policy -> Stdio, table by
+    table)."""
+    from .c15 import r9_names_reach_their_policy
+    r9_names_reach_their_policy(ctx)
+
+
+def r7_stored_text_gets_room_for_its_bytes(ctx):
+    """Captured text that the script stores is copied into a pool slot: the slot is requested for the number of *bytes* that
+    are then copied (shared with C12-R3: size handed to the pool = length copied = capacity recorded), or non-ASCII output is
+    cut short by the next stored value."""
+    from .c12 import r3_class_checked_release
+    r3_class_checked_release(ctx)
+
+
+RULES = [("C16-R1", r1_recheck_after_join), ("C16-R2", r2_bounded_reader), ("C16-R3", r3_kill), ("C16-R4", r4_utf8_and_status), ("C16-R5", r6_captured_text_outlives_the_frame), ("C16-R6", r6_streams_get_the_policy_they_were_given), ("C16-R7", r7_stored_text_gets_room_for_its_bytes)]
 
 EXPLANATION = (
     "Ordering and wiring clauses only; thread schedules are not decidable in this family. R1: in join_capture the reader is "
